@@ -347,7 +347,15 @@ def impl(case):
         else:
             call = lambda: ptn.calculate_ground_state_local_twosite(H, phi, 1, numiter_lanczos=4, tol_split=1e-8)
     elif op == 'graph_add':
-        g, _ = rand_graph(rs, L); h, _ = rand_graph(rs, L); operands = [g, h]; call = lambda: g.add(h)
+        g, _ = rand_graph(rs, L); h, _ = rand_graph(rs, L)
+        if rs.random() < 0.6:
+            # ids of the two graphs pairwise disjoint (no clash at all) or partially clashing
+            off = 1000 if rs.random() < 0.7 else 2
+            for nid in sorted(h.nodes.keys(), reverse=True):
+                h.rename_node_id(nid, nid + off)
+            for eid in sorted(h.edges.keys(), reverse=True):
+                h.rename_edge_id(eid, eid + off)
+        operands = [g, h]; call = lambda: g.add(h)
     elif op == 'graph_simplify':
         g, _ = rand_graph(rs, L); h, _ = rand_graph(rs, L); operands = [g, h]; call = lambda: g.simplify()
     elif op == 'graph_flip':
